@@ -153,6 +153,19 @@ CLAIMED = {
     note="Trusted: Coq kernel+vm_compute; hand model; dsched; observation hooks in c10.py. Each label is assumed atomic (regions under _state_cond, Event ops, single deque ops); the RPC worker "
          "serialises runner methods; task scripts terminate (join on a never-ending task blocks by documentation and is exercised only as an expected deadlock).",
     technique="LTS with inductive invariant over label lists; trace acceptance at linearisation points"),
+ "C05": dict(category="proof", design_ref="7 (C05)",
+    text="7 generic Coq theorems (all closed) over a model of Python attribute lookup along the MRO (type.__getattribute__ for what inspect.getmembers/make_interface_descriptor "
+         "advertises, object.__getattribute__ for what _check_and_get_method dispatches), the worker step and proxy construction: a request naming a non-dispatchable name executes "
+         "nothing and gets the unknown-RPC reply; along every history every executed call named a marked member; under the boolean side condition class_ok advertised = dispatchable and "
+         "the proxy's forwarding methods are exactly the advertised names; a marked lock-control name makes descriptor construction fail and the proxy's own lock/unlock/force_unlock/"
+         "is_locked are never overwritten. Per-class obligations: class_ok = true by vm_compute for ALL 94 QMI_RpcObject subclasses importable from qmi.* (context object, task runner, "
+         "90 instrument classes), the member tables REGENERATED from the live classes on every run (translator: __mro__/__dict__ walk + ast scan of self.x assignments). Tie: 81 shipped "
+         "classes instantiated with stubs and 200 generated classes per run are probed with every name in dir(obj) + advertised + junk names through the real handlers, descriptor "
+         "and proxy (44k requests) and compared with the model; independent oracle.",
+    note="Trusted: Coq kernel+vm_compute; hand model of attribute lookup; the translator (validated each run against the real handlers); 13 classes needing vendor libraries are covered "
+         "statically only; assumptions A1-A3 (values read from properties/slots/instance dict carry no truthy _rpc_method; vars(obj) within the scanned names) are checked each run. "
+         "The defect found (property getters evaluated before the marker check) was repaired by a fix: commit.",
+    technique="MRO member-table model, generic theorem + per-class reflection, translator, differential probing of the real handlers"),
 }
 
 REASONS = {}
